@@ -81,17 +81,26 @@ def check(tier='quick', seed=0):
     # coarse frequencies of the same NUMBER as the required ones but different values must be interpolated, not passed through
     time = np.logspace(-2, 1, 11)
     req = emg3d.time.Fourier(time=time, fmin=0.01, fmax=100.0, verb=0).freq_required
-    for shift in (1.05, 0.97):
+    for shift in (1.05, 0.97, 'inside'):
         cases += 1
-        F = emg3d.time.Fourier(time=time, fmin=0.01, fmax=100.0, input_freq=req * shift, verb=0)
+        # 'inside': as many input frequencies as required ones, ALL of them inside the band (so as many are computed as are required)
+        inp = req * shift if shift != 'inside' else np.geomspace(0.0101, 99.0, req.size)
+        F = emg3d.time.Fourier(time=time, fmin=0.01, fmax=100.0, input_freq=inp, verb=0)
         fc, fi = F.freq_compute, F.freq_interpolate
         smooth = lambda f: np.exp(-f / 10) + 1j * (-f / (1 + f))
         try:
             out = F.interpolate(smooth(fc))
         except Exception as ex:
             return fail(clause='interpolate raised for equal-size input_freq', exception=f'{type(ex).__name__}: {ex}')
+        # ... and the time-domain result is the reference transform of that filled spectrum (also when as many frequencies are given as required)
+        td = F.freq2time(smooth(fc), 500.0)
+        ref, _ = empymod.model.tem(out[:, None], np.array(500.0), freq=F.freq_required, time=F.time, signal=F.signal, ft=F.ft, ftarg=F.ftarg)
+        if not np.allclose(td, np.squeeze(ref), rtol=1e-12, atol=0, equal_nan=True):
+            return fail(clause='freq2time differs from the reference transform applied to the filled spectrum (as many input frequencies as required ones)',
+                        input_freq='freq_required * %s' % shift if shift != 'inside' else 'geomspace inside the band, as many as required', n_given=int(fc.size),
+                        n_required=int(F.freq_required.size))
         dev = np.abs(out[F.ifreq_interpolate] - smooth(fi)).max() / np.abs(smooth(fi)).max()
         if dev > 2e-3:
             return fail(clause='band values are neither taken at coinciding frequencies nor interpolated (data written to the wrong frequencies)',
-                        input_freq='freq_required * %s' % shift, max_rel_deviation_from_smooth_spectrum=float(dev))
+                        input_freq=str(shift), max_rel_deviation_from_smooth_spectrum=float(dev))
     return dict(reproduced=False, cases=cases)
